@@ -65,7 +65,18 @@ else:
         tcmd = "cargo test %s --offline --no-fail-fast --lib --tests 2>&1 | grep -E '^test .*FAILED|^test result|error(\\[|:)' | sort | uniq -c | sort -rn | head -30" % " ".join("-p " + c for c in crates)
         rc2, out2 = sh(["bash", "-c", tcmd], cwd=wt, timeout=7200)
         failed = re.findall(r"test (\S+) \.\.\. FAILED", out2)
-        meta["existing_tests_with_patch"] = {"cmd": tcmd, "failed": failed, "tail": out2[-1200:]}
+        # wall-clock based tests of the repository flake under load: a failing test other than the known one is re-run
+        # alone up to three times and only counts when it fails every time
+        flaky = []
+        for name in [f for f in failed if "rsp_ql_dstream_semantics" not in f]:
+            for _ in range(3):
+                rcx, outx = sh(["bash", "-c", "cargo test %s --offline --lib --tests %s 2>&1 | grep -E '^test result|FAILED' | head -40" % (" ".join("-p " + c for c in crates), name.split("::")[-1])], cwd=wt, timeout=3600)
+                if "FAILED" not in outx:
+                    flaky.append(name)
+                    break
+        failed = [f for f in failed if f not in flaky]
+        meta_flaky = flaky
+        meta["existing_tests_with_patch"] = {"cmd": tcmd, "failed": failed, "flaky_passed_on_rerun": meta_flaky, "tail": out2[-1200:]}
         tests_ok = all("rsp_ql_dstream_semantics" in f for f in failed) and "error[" not in out2 and "could not compile" not in out2 and "test result" in out2
     finally:
         sh(["git", "-C", "/repo", "worktree", "remove", "--force", wt])
